@@ -47,8 +47,15 @@ for _pid, _title in (("C03", "set"), ("C04", "delete"), ("C09", "query/create"))
      note="Which nodes a path matches is taken from the real read path and located through each result's parent container (C01/C02 are not claimed); documents exclude merge keys and custom tags; there is no scheduler nondeterminism in this engine, the fault dimension is limited to failed operations and the simulated FS of persist/reopen.",
      design="DESIGN.md section 4")
 
+CHECKS["C16"] = dict(
+ script="checks/c16.py", engine="tool-world", level="exploration",
+ technique="deterministic simulation of the six real tool main()s in a simulated process world, differential against the library called directly, metamorphic over delivery channels (file / explicit - / implicit stdin with seeded chunking / tty), plus single read-fault injection (oserror, legal short read)",
+ text="Seeded scenarios for yaml-get, yaml-set, yaml-merge, yaml-diff, yaml-validate and yaml-paths are run through the real entry points (argument parsing, validation, I/O, formatting, exit plumbing) in the simulated world and compared with the library's answer on an independently loaded copy; yaml-diff's exit status is also judged against plain data equality; every scenario is re-delivered over stdin and must give the same outcome; with no input on a terminal the tools must refuse, not read; under one read fault a run may fail but never succeed with a different answer. Seeded search, not a proof.",
+ note="The library is the reference for what a tool should print (its own correctness is C01-C07); output formatting rules are re-derived in the check from the tools' documented behaviour; -v/-d chatter is not line-matched.",
+ design="DESIGN.md section 3.7")
+
 PENDING = {}
-for pid in ("C16",):
+for pid in ():
     if pid not in CHECKS:
         PENDING[pid] = "claimed in DESIGN.md; check under construction, listed here until its command exists"
 
